@@ -51,6 +51,14 @@ Definition p01 (dst : bytes) (ledger : list (bytes * bytes)) (obs : sx) : sx :=
 
 Definition run_C01 (case obs : sx) : sx :=
   match case with
+  | SL [t; SN _; SN _; SN _] =>
+      (* concurrent receivers on one UDP swarm: obs = (received changed-or-mixed) *)
+      if is_sym "udp-concurrent" t then
+        match obs with
+        | SL [SN rcv; SN badn] => SL [SL [SN rcv; SN 0]; if badn =? 0 then ok else bad "message-changed-or-mixed-while-its-callback-ran"]
+        | _ => SL [obs; bad "unreadable-observation"]
+        end
+      else bad_case
   | SL [t; SL ls; SB dst; SL ledger; wires] =>
       if negb (is_sym "c01" t) then bad_case else
       match layers_of_sx ls with
